@@ -7,6 +7,9 @@ modelled: the translator rejects 3-index slices and nil comparisons). `Except St
 -/
 namespace Go
 
+/-- a value of an interface type: never inspected, only handed to uninterpreted functions (`opaque_funcs`) -/
+abbrev Iface := Unit
+
 /-- two's-complement wrap into `[-2^(n-1), 2^(n-1))` -/
 def wrapS (n : Nat) (x : Int) : Int := (x + 2 ^ (n - 1)) % 2 ^ n - 2 ^ (n - 1)
 
